@@ -1,9 +1,9 @@
 SPECIFICATION Spec
 CONSTANTS
-  VALS = {"v1", "v2", "v3"}
+  VALS = {"v1", "v2", "v3", "v4", "v5"}
   FORD <- c_FORD
   TOKENS = {"t1", "t2"}
-  FIX = {"FROMTO", "WINDOW", "L26"}
+  FIX = {"FROMTO", "WINDOW", "L26", "L8", "L25S", "RPNIL"}
   CFGS <- g_CFGS
   PSS <- g_PSS
   PSS2 <- g_PSS2
